@@ -113,6 +113,7 @@ def network_simplex(
     state = [1] * m + [0] * n
 
     iterations = 0
+    converged = False
 
     while iterations < max_iter:
         iterations += 1
@@ -135,7 +136,8 @@ def network_simplex(
                 entering = arc
 
         if entering == -1:
-            break  # Optimal: no improving arc found
+            converged = True  # Optimal: no improving arc found
+            break
 
         u, v = source[entering], target[entering]
         rc = cost[entering] - pi[u] + pi[v]
@@ -210,7 +212,9 @@ def network_simplex(
 
     for arc in range(m, total_arcs):
         if flow[arc] > 0:
-            return Result(None, float("inf"), iterations, total_arcs, Status.INFEASIBLE)
+            # Artificial flow left after convergence proves infeasibility; after max_iter it proves nothing
+            status = Status.INFEASIBLE if converged else Status.MAX_ITER
+            return Result(None, float("inf"), iterations, total_arcs, status)
 
     total_cost = sum(flow[i] * cost[i] for i in range(m))
     flow_dict: dict[tuple[int, int], int] = {}
@@ -219,7 +223,7 @@ def network_simplex(
             key = (source[i], target[i])
             flow_dict[key] = flow_dict.get(key, 0) + flow[i]  # parallel arcs are pooled
 
-    return Result(flow_dict, total_cost, iterations, total_arcs)
+    return Result(flow_dict, total_cost, iterations, total_arcs, Status.OPTIMAL if converged else Status.FEASIBLE)
 
 
 def _rebuild_tree(root, tree_arcs, source, target, cost, parent, pred, depth, pi):
